@@ -103,3 +103,88 @@ Proof.
   unfold index_valid, level_address. destruct (l_rep l) as [r|]; [|discriminate].
   intros ->. reflexivity.
 Qed.
+
+(* ---------- release build: modular exactness ---------- *)
+
+Lemma mod_add_cong m a b a' b' : m <> 0 -> a mod m = a' mod m -> b mod m = b' mod m -> (a + b) mod m = (a' + b') mod m.
+Proof. intros Hm Ha Hb. rewrite (Z.add_mod a b), (Z.add_mod a' b') by assumption. rewrite Ha, Hb. reflexivity. Qed.
+
+Lemma mod_sub_cong m a b a' b' : m <> 0 -> a mod m = a' mod m -> b mod m = b' mod m -> (a - b) mod m = (a' - b') mod m.
+Proof.
+  intros Hm Ha Hb. rewrite <- !Z.add_opp_r. apply mod_add_cong; [assumption|assumption|].
+  assert (forall x, (- x) mod m = (- (x mod m)) mod m) as Hopp.
+  { intros x. rewrite <- (Z.sub_0_l x), <- (Z.sub_0_l (x mod m)).
+    rewrite (Zminus_mod 0 x), (Zminus_mod 0 (x mod m)). rewrite Z.mod_mod by assumption. reflexivity. }
+  rewrite (Hopp b), (Hopp b'), Hb. reflexivity.
+Qed.
+
+Lemma mod_mul_cong m a b a' : m <> 0 -> a mod m = a' mod m -> (a * b) mod m = (a' * b) mod m.
+Proof. intros Hm Ha. rewrite (Z.mul_mod a b), (Z.mul_mod a' b) by assumption. rewrite Ha. reflexivity. Qed.
+
+(* In a release build no arithmetic step fails; whatever wraps on the way, every level's result is the
+   mathematical contribution modulo 2^bits(IT). *)
+Lemma level_address_release it base base' l v :
+  0 < bits it -> base mod 2 ^ bits it = base' mod 2 ^ bits it ->
+  level_address Release it base l = Ok v ->
+  v mod 2 ^ bits it = (base' + level_sem l) mod 2 ^ bits it /\ index_valid l = true.
+Proof.
+  intros Hb Hbase. set (M := 2 ^ bits it). assert (HM : M <> 0) by (subst M; apply Z.pow_nonzero; lia).
+  unfold level_address, level_sem, index_valid. destruct (l_rep l) as [r|].
+  - destruct ((0 <=? l_index l) && (l_index l <? r_count r)) eqn:Ev; cbn [negb]; [|discriminate].
+    destruct (arith Release it (base + l_addr l)) as [s|] eqn:E1; cbn [bind]; [|discriminate].
+    apply arith_release_mod in E1; [|lia]. fold M in E1.
+    destruct (arith Release it (wrap it (l_index l) * Z.abs (r_stride r))) as [p|] eqn:E2; cbn [bind]; [|discriminate].
+    apply arith_release_mod in E2; [|lia]. fold M in E2.
+    assert (Hidx : wrap it (l_index l) mod M = l_index l mod M) by (apply wrap_mod_eq; lia).
+    assert (Hp : p mod M = (l_index l * Z.abs (r_stride r)) mod M).
+    { rewrite E2. apply mod_mul_cong; assumption. }
+    assert (Hs : s mod M = (base' + l_addr l) mod M).
+    { rewrite E1. apply mod_add_cong; [assumption|assumption|reflexivity]. }
+    destruct (r_stride r <? 0) eqn:Es; intros H; apply arith_release_mod in H; try lia; fold M in H; rewrite H; split; try reflexivity.
+    + replace (base' + (l_addr l + l_index l * r_stride r)) with ((base' + l_addr l) - l_index l * Z.abs (r_stride r)).
+      * apply mod_sub_cong; assumption.
+      * rewrite Z.abs_neq by lia. ring.
+    + replace (base' + (l_addr l + l_index l * r_stride r)) with ((base' + l_addr l) + l_index l * Z.abs (r_stride r)).
+      * apply mod_add_cong; assumption.
+      * rewrite Z.abs_eq by lia. ring.
+  - intros H. apply arith_release_mod in H; [|lia]. fold M in H. rewrite H. split; [|reflexivity].
+    rewrite Z.add_0_r. apply mod_add_cong; [assumption|assumption|reflexivity].
+Qed.
+
+Theorem gen_addr_from_release it : forall path base base' v,
+  0 < bits it -> base mod 2 ^ bits it = base' mod 2 ^ bits it ->
+  gen_addr_from Release it base path = Ok v ->
+  v mod 2 ^ bits it = (base' + addr_sem path) mod 2 ^ bits it /\ forallb index_valid path = true.
+Proof.
+  induction path as [|l t IH]; intros base base' v Hb Hbase H; unfold addr_sem in *; cbn [gen_addr_from fold_right forallb] in *.
+  - inversion H; subst. rewrite Z.add_0_r. split; [assumption|reflexivity].
+  - destruct (level_address Release it base l) as [a|] eqn:E; cbn [bind] in H; [|discriminate].
+    destruct (level_address_release it base base' l a Hb Hbase E) as [Ha Hv].
+    destruct (IH a (base' + level_sem l) v Hb Ha H) as [Hr Hvs]. rewrite Hv, Hvs. split; [|reflexivity].
+    rewrite Hr. f_equal. ring.
+Qed.
+
+(* Release build: the bus address is exact whenever the mathematical address fits the address type and
+   the internal type is at least as wide — even if intermediates wrapped (cf. D3b). *)
+Theorem address_exact_release it at_ path v :
+  0 < bits at_ -> bits at_ <= bits it ->
+  gen_addr Release it at_ path = Ok v -> in_range at_ (addr_sem path) = true ->
+  v = addr_sem path /\ forallb index_valid path = true.
+Proof.
+  intros Ha Hle H Hfit. unfold gen_addr in H.
+  destruct (gen_addr_from Release it 0 path) as [a|] eqn:E; cbn [bind] in H; [|discriminate].
+  destruct (gen_addr_from_release it path 0 0 a ltac:(lia) eq_refl E) as [Hm Hv]. inversion H; subst. split; [|assumption].
+  rewrite <- (wrap_in_range at_ (addr_sem path)) by assumption.
+  apply (f_equal (fun x => x)). unfold wrap.
+  assert (a mod 2 ^ bits at_ = addr_sem path mod 2 ^ bits at_) as ->; [|reflexivity].
+  rewrite Z.add_0_l in Hm.
+  assert (Hd : forall x, x mod 2 ^ bits at_ = (x mod 2 ^ bits it) mod 2 ^ bits at_).
+  { intros x. assert (0 < 2 ^ bits at_) by (apply Z.pow_pos_nonneg; lia).
+    assert (0 < 2 ^ bits it) by (apply Z.pow_pos_nonneg; lia).
+    rewrite (Z.mod_eq x (2 ^ bits it)) by lia.
+    replace (2 ^ bits it) with (2 ^ (bits it - bits at_) * 2 ^ bits at_) by (rewrite <- Z.pow_add_r by lia; f_equal; lia).
+    replace (x - 2 ^ (bits it - bits at_) * 2 ^ bits at_ * (x / (2 ^ (bits it - bits at_) * 2 ^ bits at_)))
+      with (x + (- (2 ^ (bits it - bits at_) * (x / (2 ^ (bits it - bits at_) * 2 ^ bits at_)))) * 2 ^ bits at_) by ring.
+    symmetry. apply Z_mod_plus_full. }
+  rewrite (Hd a), (Hd (addr_sem path)), Hm. reflexivity.
+Qed.
